@@ -129,7 +129,10 @@ impl<'a> G<'a> {
         }
     }
     fn sched_bytes(&mut self, o: &str, n: usize, bs: usize, b2b: Option<bool>, export: bool) {
-        for k in self.composition(n, (2 * bs + 1).max(n / 5), true) {
+        // half of the schedules use few, large pieces: only a call that still holds at least W whole blocks after
+        // the buffered remainder reaches the cores' parallel keystream path
+        let maxpart = if self.rng.coin() { n.max(1) } else { (2 * bs + 1).max(n / 5) };
+        for k in self.composition(n, maxpart, true) {
             let b = b2b.unwrap_or_else(|| self.rng.coin());
             self.bytes(o, k, b);
             if export && self.rng.chance(1, 3) {
@@ -144,9 +147,14 @@ impl<'a> G<'a> {
             if base != "belt" && self.rng.chance(2, 3) {
                 let max: u128 = if bits == 128 { u128::MAX } else { (1u128 << bits) - 1 };
                 let k = self.rng.below(4) as u128;
-                let e = self.rng.range(1, bits as usize - 1) as u32;
-                let val = *self.rng.pick(&[max, max - 1, max - k, (1u128 << e) - 1, (1u128 << e) - 2, 0, 1, 255, 256, max / 2]);
-                return json!({"rand": id, "field": {"val": val.to_string()}});
+                // carry boundaries: the whole field, every byte boundary inside it (2^8j - 1 - k; the half-word
+                // boundaries 2^32, 2^64 get extra weight), and a few small values
+                let j = self.rng.range(1, bits as usize / 8) as u32;
+                let byteb = if j * 8 >= 128 { u128::MAX } else { (1u128 << (8 * j)) - 1 };
+                let half = if bits >= 64 { (1u128 << (bits / 2)) - 1 } else { (1u128 << 16) - 1 };
+                let val = *self.rng.pick(&[max - k, max - k, byteb - k.min(byteb), byteb - k.min(byteb), half - k, half - k,
+                                           (1u128 << 32) - 1 - k, 0, 1, 255, 256, max / 2]);
+                return json!({"rand": id, "field": {"val": (val & max).to_string()}});
             }
             if base == "belt" && self.rng.chance(1, 2) {
                 let k = self.rng.below(5) as u128;
@@ -185,7 +193,7 @@ fn pick_kind(g: &mut G, kinds: &[String]) -> (String, Option<&'static str>) {
             return ((*g.rng.pick(&c)).clone(), Some("dec"));
         }
     }
-    if r < 5 {
+    if r < 6 {
         let c: Vec<&String> = kinds.iter().filter(|k| k.ends_with("core") || CTS_KINDS.contains(&k.as_str())).collect();
         if !c.is_empty() {
             return ((*g.rng.pick(&c)).clone(), None);
@@ -415,7 +423,50 @@ fn gen_cts(g: &mut G) {
 }
 
 /// C07: one data stream, several objects of one kind with different schedules and widths
+/// C07, counter cores: carry-boundary IVs, a width > 1, one object block by block and one in a single call
+fn gen_c07_counters(g: &mut G) {
+    let base: &str = if g.rng.chance(1, 7) { "belt" } else { *g.rng.pick(&CTR_KINDS) };
+    let kind = core_of(base);
+    let f = loop {
+        let f = g.pick_fac(&kind);
+        if g.w(f) >= 2 { break f; }
+    };
+    let fs = g.same_fn(f, &kind);
+    let w = g.w(f);
+    let bits = ctr_bits(base).unwrap();
+    let max: u128 = if bits == 128 { u128::MAX } else { (1u128 << bits) - 1 };
+    let k = g.rng.below(2 * w + 2) as u128;
+    let iv = if base == "belt" {
+        json!({"belt_s": (*g.rng.pick(&[u128::MAX - k, (1u128 << 64) - 1 - k, (1u128 << 32) - 1 - k])).to_string()})
+    } else {
+        let half = if bits >= 64 { (1u128 << (bits / 2)) - 1 } else { (1u128 << 16) - 1 };
+        let j = g.rng.range(1, bits as usize / 8 - 1) as u32;
+        let val = *g.rng.pick(&[max - k, half - k.min(half), (1u128 << (8 * j)) - 1 - k.min((1u128 << (8 * j)) - 1)]);
+        json!({"rand": 0, "field": {"val": (val & max).to_string()}})
+    };
+    let n = 2 * w + 1 + g.rng.below(w + 1);
+    let b2b = g.rng.coin();
+    g.new_obj("o0", f, &kind, "ks", 0, iv.clone(), json!({"rand":0}), "inner");
+    g.new_obj("o1", f, &kind, "ks", 0, iv.clone(), json!({"rand":0}), "inner");
+    let f2 = *g.rng.pick(&fs);
+    g.new_obj("o2", f2, &kind, "ks", 0, iv, json!({"rand":0}), "inner");
+    for _ in 0..n {
+        g.blocks("o0", 1, false, b2b);
+    }
+    g.op("export", "o0");
+    g.blocks("o1", n, true, b2b);
+    g.op("export", "o1");
+    let w2 = g.w(f2);
+    for kk in g.composition(n, w2 + 2, false) {
+        g.blocks("o2", kk, true, b2b);
+    }
+    g.op("export", "o2");
+}
+
 fn gen_c07(g: &mut G) {
+    if g.rng.chance(1, 4) {
+        return gen_c07_counters(g);
+    }
     let mut kinds: Vec<String> = BLOCK_KINDS.iter().map(|s| s.to_string()).collect();
     for k in CTR_KINDS.iter().chain(["belt", "ofb"].iter()) {
         kinds.push(core_of(k));
@@ -918,6 +969,25 @@ fn gen_c13(g: &mut G) {
             }
             g.op("export", "a");
         }
+        9 if g.rng.coin() => {
+            // ordinary requests on the stream ciphers with boundary IVs (counter field / E(IV) near a wrap) and at far
+            // positions: nothing here violates a contract, so nothing may be refused or panic
+            let kind = g.stream_kind();
+            let f = g.pick_fac(kind);
+            let bs = g.bs(f);
+            let iv = g.iv_for(kind, 0);
+            g.new_obj("a", f, kind, "ks", 0, iv, json!({"rand":0}), "inner");
+            for _ in 0..g.rng.range(1, 4) {
+                let n = g.nbytes(bs, 4);
+                let b = g.rng.coin();
+                g.bytes("a", n, b);
+                if ctr_bits(kind).is_some() && g.rng.coin() {
+                    let t = *g.rng.pick(&SEEK_TYPES);
+                    g.cmds.push(json!({"op":"pos","o":"a","t":t}));
+                    g.op("rem", "a");
+                }
+            }
+        }
         _ => {
             // seeks with every integer type to targets that fit it
             let kind = g.seek_kind();
@@ -1116,7 +1186,8 @@ fn gen_c16(g: &mut G) {
     for _ in 0..3 {
         kinds.push("cfbbuf".into()); // byte cursor + feedback block: the richest state among the Clone types
     }
-    for k in CTR_KINDS.iter().chain(["ofb"].iter()) {
+    for k in CTR_KINDS.iter().chain(["ofb", "belt"].iter()) {
+        // (BeltCtrCore is not Clone: the clone step is then skipped, the separate-instances part still applies)
         kinds.push(core_of(k));
         kinds.push(k.to_string());
     }
@@ -1164,9 +1235,21 @@ fn gen_c16(g: &mut G) {
             return;
         }
     }
-    // an unrelated live instance under another key, used in between
+    // other live instances used in between: an unrelated mode under another key, and two NEIGHBOURS of the
+    // same type - same IV under another key (y1), same key with another IV (y2) - each of which is replayed
+    // alone at the end (y1t, y2t): hidden shared state keyed too coarsely would make them differ
     let other_kind = *g.rng.pick(&["cbc", "cfb", "ofbblk"]);
     g.new_obj("z", f, other_kind, "enc", 5, json!({"rand":9}), json!({"rand":9}), "inner");
+    let neighbours = g.rng.chance(1, 2);
+    let ny = if bytelevel { g.nbytes(bs, 2).max(1) } else { (g.nblocks(w, 3) * mul).max(mul) };
+    let py = g.composition(ny, if bytelevel { 2 * bs } else { w + 2 }, false);
+    let mut iy = 0usize;
+    let iv2 = g.iv_for(&kind, 7);
+    if neighbours {
+        // y2 first, then y1 directly before o: consecutive constructions share the IV but not the key
+        g.new_obj("y2", f, &kind, dir, 0, iv2.clone(), json!({"rand":12}), "inner");
+        g.new_obj("y1", f, &kind, dir, 1, iv.clone(), json!({"rand":11}), "inner");
+    }
     g.new_obj("o", f, &kind, dir, 0, iv.clone(), json!({"rand":0}), "inner");
     // history before the clone
     let h1 = if bytelevel { g.nbytes(bs, 2) } else { g.nblocks(w, 4) * mul };
@@ -1204,6 +1287,12 @@ fn gen_c16(g: &mut G) {
         if g.rng.chance(1, 3) {
             g.blocks("z", 1, false, false);
         }
+        if neighbours && iy < py.len() && g.rng.coin() {
+            for y in ["y1", "y2"] {
+                if bytelevel { g.bytes(y, py[iy], false) } else { g.blocks(y, py[iy], true, false) }
+            }
+            iy += 1;
+        }
         // a clone must also REPORT what the original would: position and remaining blocks
         if ks && g.rng.chance(1, 2) {
             let who = if g.rng.coin() { "o" } else { "c" };
@@ -1223,6 +1312,25 @@ fn gen_c16(g: &mut G) {
             let n = g.rng.below(span - p + 1);
             g.bytes("c", n, false);
             g.cmds.push(json!({"op":"pos","o":"c","t":"u128"}));
+        }
+    }
+    if neighbours {
+        while iy < py.len() {
+            for y in ["y1", "y2"] {
+                if bytelevel { g.bytes(y, py[iy], false) } else { g.blocks(y, py[iy], true, false) }
+            }
+            iy += 1;
+        }
+        // the same two instances again, alone
+        // (again back to back with a same-IV construction under the other key, and with a same-key one)
+        g.new_obj("w0", f, &kind, dir, 0, iv.clone(), json!({"rand":13}), "inner");
+        g.new_obj("y1t", f, &kind, dir, 1, iv.clone(), json!({"rand":11}), "inner");
+        g.new_obj("w1", f, &kind, dir, 1, iv2.clone(), json!({"rand":14}), "inner");
+        g.new_obj("y2t", f, &kind, dir, 0, iv2.clone(), json!({"rand":12}), "inner");
+        for &k in &py {
+            for y in ["y1t", "y2t"] {
+                if bytelevel { g.bytes(y, k, false) } else { g.blocks(y, k, true, false) }
+            }
         }
     }
     if !seeked {
